@@ -72,6 +72,24 @@ def register(w):
 
     w.add_contract(Contract("jax2onnx.plugins:<emission-sites>", kind="custom", custom=custom, props=["C11"],
                             witnesses=["C11_ops_within_opset"]))
+    # ---- bounded stand-ins (never counted as proved): element types are part of the operator signature of an opset
+    def bounded_types(world, c, out):
+        import time
+        from pyvc.run import run_witness
+        t0 = time.time()
+        for oname, wn, bound in (("range_like_operators_are_emitted_with_element_types_their_declared_opset_admits", "C11_type_constraints_family",
+                                  "jnp.arange / lax.iota / jnp.linspace with result types float16, bfloat16, float32, int32, int64, static and traced bounds, every opset from 21 to the newest installed"),
+                                 ("arange_with_an_8_bit_or_unsigned_result_type_is_emitted_with_a_type_range_admits", "D42", "2 programs: jnp.arange(stop, dtype=int8), jnp.arange(5, dtype=uint8), every opset from 21")):
+            holds, detail = run_witness(wn, timeout=1500)
+            d = {"oid": f"jax2onnx.plugins.jax.numpy.arange:JnpArangePlugin.lower#bounded:{oname}", "kind": "bounded", "status": "discharged" if holds else ("refuted" if holds is False else "unknown"),
+                 "backend": "enumerated", "time": time.time() - t0, "instances": 1, "trivial": 0, "bounded": bound,
+                 "note": f"the emission-site obligations speak about operator names only; type constraints per opset are checked by onnx.checker on the real export; {detail}"[:500]}
+            if holds is False:
+                d.update(args={"witness": wn}, replay={"reproduced": True, "detail": detail}, formula="", model=detail)
+            out["obls"].append(d)
+        out["paths"], out["time"] = 1, time.time() - t0
+        return out
+    w.add_contract(Contract("jax2onnx.plugins:<bounded-type-constraints>", kind="custom", custom=bounded_types, props=["C11"], witnesses=["C11_type_constraints_family", "D42"]))
     w.trust("C11 opset-slice mode: expressions recognised as the opset (builder.opset, ctx.opset, _builder_opset(..), _graph_default_opset(..)) denote the declared model opset; operator first-versions tabulated from the installed onnx.defs")
 
     # ---- function bodies are lowered at the opset (and precision) of the enclosing model
